@@ -4,6 +4,7 @@ package main
 
 import (
 	"fmt"
+	"go/constant"
 	"go/token"
 	"go/types"
 	"strings"
@@ -772,7 +773,7 @@ func rC02Range(w *World, r *Report) {
 			continue
 		}
 		cmp, ok := iff.Cond.(*ssa.BinOp)
-		if !ok || (cmp.Op != token.LSS && cmp.Op != token.LEQ) {
+		if !ok || (cmp.Op != token.LSS && cmp.Op != token.LEQ && cmp.Op != token.NEQ) {
 			continue
 		}
 		j, ok := cmp.X.(*ssa.Phi)
@@ -786,6 +787,7 @@ func rC02Range(w *World, r *Report) {
 		}
 		found++
 		var problems []string
+		var startLo ssa.Value
 		for i, e := range j.Edges {
 			if b.Dominates(b.Preds[i]) {
 				bo, ok := e.(*ssa.BinOp)
@@ -798,6 +800,8 @@ func rC02Range(w *World, r *Report) {
 				}
 			} else if lo := converterOf(resolvePhi(e, b)); lo == nil {
 				problems = append(problems, "the loop does not start at the converted lower bound")
+			} else {
+				startLo = lo
 			}
 		}
 		// body appends j
@@ -829,7 +833,8 @@ func rC02Range(w *World, r *Report) {
 				if f.Op == token.GTR {
 					x, y = y, x
 				}
-				if converterOf(x) != nil && converterOf(y) == hi {
+				// (a bound written j != b counts up to b only from a start below it: the comparison must be of the start itself)
+				if cx := converterOf(x); cx != nil && converterOf(y) == hi && (cmp.Op != token.NEQ || cx == startLo) {
 					ordered = true
 				}
 			}
@@ -837,7 +842,7 @@ func rC02Range(w *World, r *Report) {
 		if !ordered {
 			problems = append(problems, "the expansion is not guarded by lower < upper on the converted numbers (a comparison of the texts orders 9 after 11)")
 		}
-		if cmp.Op == token.LSS {
+		if cmp.Op == token.LSS || cmp.Op == token.NEQ {
 			// b must be appended on every path from the loop exit to the next element / the store
 			isAppendHi := func(in ssa.Instruction) bool {
 				c, ok := in.(*ssa.Call)
@@ -981,59 +986,89 @@ func rC02Validation(w *World, r *Report) {
 		ru.Undecided("ValidateMinMaxArgs", "-", "not found")
 		return
 	}
-	type rej struct {
-		desc string
-		ok   func(f Fact) bool
+	// decided over the values themselves: the function's tests compare the two fields with constants and with each
+	// other, so its outcome for a pair (min, max) is fixed by the order of min, max and those constants; every order
+	// is realised by the integers from two below the smallest constant to two above the largest. For each such pair
+	// outside min >= 1, max >= 1, max >= min, no return of a nil error may be reachable. (`max <= 0` need not be
+	// tested by name: min >= 1 and max >= min exclude it.)
+	var loadsMin, loadsMax []ssa.Value
+	consts := []int64{0, 1}
+	stored := false
+	eachInstr(v, func(in ssa.Instruction) {
+		switch x := in.(type) {
+		case *ssa.UnOp:
+			if _, ok := loadOfFieldNamed(x, "MinArgs"); ok {
+				loadsMin = append(loadsMin, x)
+			}
+			if _, ok := loadOfFieldNamed(x, "MaxArgs"); ok {
+				loadsMax = append(loadsMax, x)
+			}
+		case *ssa.BinOp:
+			for _, o := range []ssa.Value{x.X, x.Y} {
+				if k, ok := constInt(o); ok && k > -1000 && k < 1000 {
+					consts = append(consts, k)
+				}
+			}
+		case *ssa.Store:
+			if fa, ok := x.Addr.(*ssa.FieldAddr); ok {
+				if n := fieldOfAddr(fa).Name(); n == "MinArgs" || n == "MaxArgs" {
+					stored = true
+				}
+			}
+		}
+	})
+	if stored || len(loadsMin) == 0 || len(loadsMax) == 0 {
+		ru.Bad("ValidateMinMaxArgs/reads", w.Pos(v.Pos()), "the validation does not read both bounds (or writes them)")
+		return
 	}
-	isLoad := func(v ssa.Value, n string) bool { _, ok := loadOfFieldNamed(v, n); return ok }
-	rejs := []rej{
-		{"min <= 0", func(f Fact) bool {
-			k, ok := constInt(f.Y)
-			return f.Y != nil && isLoad(f.X, "MinArgs") && ok && ((f.Op == token.LEQ && k == 0) || (f.Op == token.LSS && k == 1))
-		}},
-		{"max <= 0", func(f Fact) bool {
-			k, ok := constInt(f.Y)
-			return f.Y != nil && isLoad(f.X, "MaxArgs") && ok && ((f.Op == token.LEQ && k == 0) || (f.Op == token.LSS && k == 1))
-		}},
-		{"max < min", func(f Fact) bool {
-			return f.Y != nil && ((f.Op == token.LSS && isLoad(f.X, "MaxArgs") && isLoad(f.Y, "MinArgs")) || (f.Op == token.GTR && isLoad(f.X, "MinArgs") && isLoad(f.Y, "MaxArgs")))
-		}},
+	lo, hi := consts[0], consts[0]
+	for _, k := range consts {
+		if k < lo {
+			lo = k
+		}
+		if k > hi {
+			hi = k
+		}
 	}
 	igV := buildIG(v)
-	for _, rj := range rejs {
-		good := false
-		for _, b := range v.Blocks {
-			if len(b.Instrs) == 0 {
-				continue
+	accepted := func(mn, mx int64) bool {
+		env := triEnv{}
+		for _, l := range loadsMin {
+			env[l] = vsVal{c: constant.MakeInt64(mn)}
+		}
+		for _, l := range loadsMax {
+			env[l] = vsVal{c: constant.MakeInt64(mx)}
+		}
+		seen := igV.reachAssuming(env, nil)
+		for i, s := range seen {
+			if ret, ok := igV.instrs[i].(*ssa.Return); ok && s && len(ret.Results) > 0 && isNilConst(ret.Results[0]) {
+				return true
 			}
-			iff, ok := b.Instrs[len(b.Instrs)-1].(*ssa.If)
-			if !ok {
-				continue
-			}
-			for k := 0; k < 2; k++ {
-				for _, f := range condFacts(iff.Cond, k == 0, iff) {
-					if !rj.ok(f) {
-						continue
-					}
-					// that edge must only reach non-nil returns
-					seen := igV.reachFrom(igV.edgeStart(b, k), nil)
-					all := true
-					n := 0
-					for i, s := range seen {
-						if ret, ok := igV.instrs[i].(*ssa.Return); ok && s {
-							n++
-							if isNilConst(ret.Results[0]) {
-								all = false
-							}
-						}
-					}
-					if all && n > 0 {
-						good = true
+		}
+		return false
+	}
+	classes := []struct {
+		desc string
+		in   func(mn, mx int64) bool
+	}{
+		{"min <= 0", func(mn, mx int64) bool { return mn <= 0 }},
+		{"max <= 0", func(mn, mx int64) bool { return mx <= 0 }},
+		{"max < min", func(mn, mx int64) bool { return mx < mn }},
+	}
+	for _, cl := range classes {
+		bad := ""
+		n := 0
+		for mn := lo - 2; mn <= hi+2; mn++ {
+			for mx := lo - 2; mx <= hi+2; mx++ {
+				if cl.in(mn, mx) {
+					n++
+					if accepted(mn, mx) && bad == "" {
+						bad = fmt.Sprintf(" (min=%d, max=%d is accepted)", mn, mx)
 					}
 				}
 			}
 		}
-		ru.Check(good, "ValidateMinMaxArgs/"+rj.desc, w.Pos(v.Pos()), rj.desc+" is rejected", "the case "+rj.desc+" is not rejected at definition time")
+		ru.Check(bad == "" && n > 0, "ValidateMinMaxArgs/"+cl.desc, w.Pos(v.Pos()), fmt.Sprintf("%s is rejected (%d pairs of bounds decided)", cl.desc, n), "the case "+cl.desc+" is not rejected at definition time"+bad)
 	}
 }
 
